@@ -233,3 +233,18 @@ Theorem C19_source_getDecryptCert_is_the_model : forall parse_cert c now validat
   = PVal (match get_decrypt_cert parse_cert validate now c with Ok dc => Ok (Some dc) | Err e => Err e end).
 Proof. exact G_getDecryptCert_is_model. Qed.
 Print Assumptions C19_source_getDecryptCert_is_the_model.
+
+(* ---- tie to the source text: Metadata() / MetadataWithSLO() themselves, re-translated from /repo's saml.go on every run
+   (GenMeta.v: every field of the nested composite literals, the int64 / time.Duration arithmetic with wrap-around, the calls
+   of the translated key getters), are the model functions of Metadata.v the theorems above are about; no panic for any
+   configuration, clock, hour count; [nil_of_empty] = either answer of `encryptionCertBytes != nil` on an empty slice ---- *)
+From V Require Import GenPreludeMeta GenMeta P_GenMeta.
+Theorem C19_source_Metadata_is_the_model : forall (c : md_config) (now : instant) (nil_of_empty : bool),
+  G_Metadata c now nil_of_empty = PVal (res_some (metadata c now)).
+Proof. exact G_Metadata_is_model. Qed.
+Print Assumptions C19_source_Metadata_is_the_model.
+
+Theorem C19_source_MetadataWithSLO_is_the_model : forall (c : md_config) (now : instant) (validity_hours : Z),
+  G_MetadataWithSLO c now validity_hours = PVal (res_some (metadata_with_slo c now validity_hours)).
+Proof. exact G_MetadataWithSLO_is_model. Qed.
+Print Assumptions C19_source_MetadataWithSLO_is_the_model.
